@@ -282,6 +282,78 @@ func c18JSONLiterals(c *core.Ctx) bool {
 	return true
 }
 
+// c18TypedMaps: records given as maps whose elements are sized numbers (map[string]uint64, int64, uint32, float32 ...). Whether such a
+// map is an acceptable record is not the question here (a coerce issue is fine): if the call succeeds the number must be the one sent.
+func c18TypedMaps(c *core.Ctx) bool {
+	type cell struct {
+		data  any
+		exact *big.Float
+	}
+	bf := func(s string) *big.Float { f, _, _ := big.ParseFloat(s, 10, 200, big.ToNearestEven); return f }
+	cells := []cell{
+		{map[string]uint64{"v": 1 << 63}, bf("9223372036854775808")}, {map[string]uint64{"v": math.MaxUint64}, bf("18446744073709551615")}, {map[string]uint64{"v": 7}, bf("7")},
+		{map[string]uint{"v": math.MaxUint}, bf("18446744073709551615")}, {map[string]uint32{"v": math.MaxUint32}, bf("4294967295")}, {map[string]uint32{"v": 3000000000}, bf("3000000000")},
+		{map[string]int64{"v": math.MaxInt64}, bf("9223372036854775807")}, {map[string]int64{"v": math.MinInt64}, bf("-9223372036854775808")}, {map[string]int64{"v": 3000000000}, bf("3000000000")},
+		{map[string]int32{"v": math.MinInt32}, bf("-2147483648")}, {map[string]int8{"v": -128}, bf("-128")}, {map[string]uint8{"v": 255}, bf("255")}, {map[string]uint16{"v": 65535}, bf("65535")},
+		{map[string]float32{"v": 16777217}, bf("16777216")}, {map[string]float32{"v": math.MaxFloat32}, new(big.Float).SetFloat64(math.MaxFloat32)},
+	}
+	for _, cl := range cells {
+		for _, k := range c18Dests {
+			for _, nest := range []bool{false, true} {
+				leaf := &spec.Node{Kind: k}
+				root := &spec.Node{Kind: spec.Struct, Fields: []spec.Field{{Key: "v", GoName: "V", Node: leaf}}}
+				var input any = cl.data
+				if nest {
+					root = &spec.Node{Kind: spec.Struct, Fields: []spec.Field{{Key: "in", GoName: "In", Node: root}}}
+					input = map[string]any{"in": cl.data}
+				}
+				root.Number()
+				o := run.Parse(spec.Build(root, nil), input, nil)
+				c.Eval(1)
+				det := map[string]any{"input": fmt.Sprintf("%T%v", input, input), "destination_type": k.String(), "issues": issuesText(o), "observed_destination": obs.Render(o.Dest)}
+				if o.Panicked {
+					det["panic"] = fmt.Sprint(o.Panic)
+					c.Violation("panic|"+k.String(), det)
+					return false
+				}
+				if len(o.Issues) > 0 {
+					continue // rejected: nothing was silently changed
+				}
+				m, _ := o.Dest.(map[string]any)
+				if nest {
+					m, _ = m["In"].(map[string]any)
+				}
+				rv := reflect.ValueOf(m["V"])
+				var got *big.Float
+				switch rv.Kind() {
+				case reflect.Int, reflect.Int32, reflect.Int64:
+					got = new(big.Float).SetPrec(200).SetInt64(rv.Int())
+				case reflect.Float32, reflect.Float64:
+					got = new(big.Float).SetPrec(200).SetFloat64(rv.Float())
+				default:
+					continue
+				}
+				want := cl.exact
+				if k == spec.Float32 {
+					f32, _ := want.Float32()
+					want = new(big.Float).SetPrec(200).SetFloat64(float64(f32))
+				} else if k == spec.Float64 {
+					f64, _ := want.Float64()
+					want = new(big.Float).SetPrec(200).SetFloat64(f64)
+				}
+				if got.Cmp(want) != 0 {
+					det["sent"], det["stored"] = cl.exact.Text('f', 0), got.Text('f', 0)
+					c.Violation("number-silently-changed|typed-map-element|"+k.String(), det)
+					return false
+				}
+				c.NonTrivial(fpf("typedmap|%T|%s|%v", cl.data, k, nest))
+			}
+		}
+	}
+	c.Count("typed_map_cells", len(cells)*len(c18Dests)*2)
+	return true
+}
+
 func altFloat32OK(data any, dest any, where string) bool {
 	s, ok := data.(string)
 	if !ok {
@@ -345,6 +417,9 @@ func randomNumber(r *rng.Rand) any {
 
 func (c18) RunCase(c *core.Ctx) {
 	if c.Case == 0 && !c18JSONLiterals(c) {
+		return
+	}
+	if c.Case == 1 && !c18TypedMaps(c) {
 		return
 	}
 	var data any
